@@ -164,8 +164,12 @@ def prepare_xfer(obs, x):
         src = t.get('src', 'path')
         if src == 'path':
             path = os.path.join(tmpdir, f'src-{x.idx}')
-            with open(path, 'wb') as f:
+            real = path + '-target' if t.get('symlink') else path
+            with open(real, 'wb') as f:
                 f.write(x.data)
+            if t.get('symlink'):
+                os.symlink(real, path)  # the caller names the file through a symbolic link
+                osu.labels[real] = x.label
             osu.labels[path] = x.label
             x.src = path
         elif src == 'seekable':
@@ -197,10 +201,14 @@ def prepare_xfer(obs, x):
             x.dest = NonSeekableSink(w, x.label)
         elif dst == 'fifo':
             path = os.path.join(tmpdir, f'fifo-{x.idx}')
-            os.mkfifo(path)
+            real = path + '-target' if t.get('symlink') else path
+            os.mkfifo(real)
+            if t.get('symlink'):
+                os.symlink(real, path)  # like /dev/stdout: a symbolic link to the special file
+                osu.labels[real] = x.label
             osu.labels[path] = x.label
             x.dest = path
-            x.fifo_reader = FifoReader(path)
+            x.fifo_reader = FifoReader(real)
             x.fifo_reader.start()
     elif x.kind == 'copy':
         w.s3.objects[(SRC_BUCKET, 'src-' + x.key)] = x.data
